@@ -37,7 +37,7 @@
 #include "common.h"
 
 #define MAXL 16
-#define MAXF 8
+#define MAXF 16
 #define MAXNEG 8
 
 /* ------------------------------------------------------------------ scripted source */
@@ -83,7 +83,7 @@ typedef struct { int ch; long rate; long n; long cap; float **pcm; short *ipcm; 
 typedef struct {
   char id[32]; char path[500]; unsigned char *data; long len;
   int tn; int tch[MAXL]; long trate[MAXL],tcount[MAXL];     /* construction truth */
-  int nl; rlink L[MAXL]; int maxch; int have_ref, have_int; char rh[33], rih[33]; char referr[160];
+  int nl; rlink L[MAXL]; int maxch; int have_ref, have_int; char rh[33], rih[33]; char referr[160]; char interr[160];   /* referr: float reference unusable; interr: only the integer anchors (built through vorbisfile) failed */
 } rfile;
 static rfile g_f[MAXF]; static int g_nf=0;
 
@@ -326,7 +326,7 @@ static void hash_ref(rfile *rf){
 static void build_ref(rfile *rf){
   dsrc d; rsched rq; outst o; int k;
   if(rf->have_ref)return;
-  rf->have_ref=1; rf->referr[0]=0;
+  rf->have_ref=1; rf->referr[0]=0; rf->interr[0]=0; strcpy(rf->rh,"-"); strcpy(rf->rih,"-");
   d_init(&d,rf->data,rf->len,0,NULL,0); rs_parse(&rq,"c1000000",1); o_init(&o,rf,1,0);
   pk_run(&d,&rq,&o,4096);
   if(o.res[0]){ snprintf(rf->referr,sizeof(rf->referr),"ref_failed:%s",o.res); return; }
@@ -342,27 +342,27 @@ static void build_ref(rfile *rf){
   /* integer reference: default schedule through vorbisfile (seekable, full reads, 4096 bytes) */
   d_init(&d,rf->data,rf->len,0,NULL,0); rs_parse(&rq,"c4096",1); o_init(&o,rf,1,1);
   vf_run(&d,0,1,0,&rq,&o);
-  if(o.res[0]||o.nneg){ snprintf(rf->referr,sizeof(rf->referr),"int_ref_failed:%s:neg%d",o.res,o.nneg); return; }
+  if(o.res[0]||o.nneg){ snprintf(rf->interr,sizeof(rf->interr),"int_ref_failed:%s:neg%d",o.res,o.nneg); hash_ref(rf); return; }
   for(k=0;k<rf->nl;k++){
     rlink *l=&rf->L[k]; long j; int c;
-    if(l->in!=l->n){ snprintf(rf->referr,sizeof(rf->referr),"int_ref_count:link%d:%ld!=%ld",k,l->in,l->n); return; }
+    if(l->in!=l->n){ snprintf(rf->interr,sizeof(rf->interr),"int_ref_count:link%d:%ld!=%ld",k,l->in,l->n); hash_ref(rf); return; }
     /* loose sanity only (exact packing is C17's business): within one LSB of the float unless clipped */
     for(j=0;j<l->n;j++)for(c=0;c<l->ch;c++){
       double f=l->pcm[c][j]*32768.0,s=l->ipcm[j*l->ch+c]; if(f>32767)f=32767; if(f<-32768)f=-32768;
-      if(s-f>1.0||f-s>1.0){ snprintf(rf->referr,sizeof(rf->referr),"int_ref_insane:link%d:idx%ld",k,j); return; }
+      if(s-f>1.0||f-s>1.0){ snprintf(rf->interr,sizeof(rf->interr),"int_ref_insane:link%d:idx%ld",k,j); hash_ref(rf); return; }
     }
   }
   /* gain anchor: ov_read_filter(gain 0.5) with a buffer that always takes the whole pending block */
   d_init(&d,rf->data,rf->len,0,NULL,0); rs_parse(&rq,"c131072",1); o_init(&o,rf,1,2);
   vf_run(&d,0,1,2,&rq,&o);
-  if(o.res[0]||o.nneg){ snprintf(rf->referr,sizeof(rf->referr),"gain_ref_failed:%s:neg%d",o.res,o.nneg); return; }
+  if(o.res[0]||o.nneg){ snprintf(rf->interr,sizeof(rf->interr),"gain_ref_failed:%s:neg%d",o.res,o.nneg); hash_ref(rf); return; }
   for(k=0;k<rf->nl;k++){
     rlink *l=&rf->L[k]; long j; int c;
-    if(l->gn!=l->n){ snprintf(rf->referr,sizeof(rf->referr),"gain_ref_count:link%d:%ld!=%ld",k,l->gn,l->n); return; }
+    if(l->gn!=l->n){ snprintf(rf->interr,sizeof(rf->interr),"gain_ref_count:link%d:%ld!=%ld",k,l->gn,l->n); hash_ref(rf); return; }
     /* the gain was applied exactly once: within one LSB of 0.5*reference (exact packing is C17's business) */
     for(j=0;j<l->n;j++)for(c=0;c<l->ch;c++){
       double f=0.5*l->pcm[c][j]*32768.0,s=l->gpcm[j*l->ch+c]; if(f>32767)f=32767; if(f<-32768)f=-32768;
-      if(s-f>1.0||f-s>1.0){ snprintf(rf->referr,sizeof(rf->referr),"gain_ref_not_half:link%d:idx%ld",k,j); return; }
+      if(s-f>1.0||f-s>1.0){ snprintf(rf->interr,sizeof(rf->interr),"gain_ref_not_half:link%d:idx%ld",k,j); hash_ref(rf); return; }
     }
   }
   rf->have_int=1;
@@ -375,6 +375,7 @@ static void run_one(rfile *rf,char path,long initial,char api,const char *req,lo
   dsrc d; rsched rq; outst o; int i; char *p;
   memset(r,0,sizeof(*r));
   if(rf->referr[0]){ snprintf(r->status,sizeof(r->status),"bad:%s",rf->referr); strcpy(r->neg,"neg=0"); return; }
+  if(api!='f'&&rf->interr[0]){ snprintf(r->status,sizeof(r->status),"bad:%s",rf->interr); strcpy(r->neg,"neg=0"); return; }
   if(!rs_parse(&rq,req,rf->maxch)||(path=='p'&&api!='f')||(api!='f'&&api!='i'&&api!='g'&&api!='k')||(path!='s'&&path!='n'&&path!='p')){ strcpy(r->status,"BADCASE"); strcpy(r->neg,"neg=0"); return; }
   if(initial<0||initial>rf->len){ strcpy(r->status,"BADCASE"); strcpy(r->neg,"neg=0"); return; }
   d_init(&d,rf->data,rf->len,cap,cut,ncut); d.initial=initial;
